@@ -1513,9 +1513,12 @@ class Repository:
                 with glock:
                     digests = files_digests[file_path]
                     digests.remove(digest)
+                    # Must be decided while we hold the lock, otherwise two threads
+                    # that finish the last two chunks can both see the empty set
+                    file_finished = not digests
 
                 _verif.sync('remove', path=file_path, digest=digest)
-                if not digests:
+                if file_finished:
                     logger.info('Finished writing file %s', file_path)
                     _verif.sync('pop', path=file_path, digest=digest)
                     with glock:
